@@ -27,6 +27,7 @@ type redirect struct {
 	toPath   string          // model package
 	sels     map[string]bool // nil = every selector
 	onlyFile string          // restrict to one file (relative path suffix)
+	inCmd    bool            // also applies to files of the command package
 }
 
 var redirects = []redirect{
@@ -35,7 +36,10 @@ var redirects = []redirect{
 		"Now": true, "Since": true, "AfterFunc": true, "NewTicker": true, "Timer": true, "Ticker": true,
 		"NewTimer": true, "Sleep": true, "After": true, "Until": true, "Tick": true}},
 	{fromPath: "crypto/rand", toPath: envBase + "vrand"},
-	{fromPath: "net/http", toPath: envBase + "vhttp", sels: map[string]bool{"ServeContent": true}},
+	{fromPath: "net/http", toPath: envBase + "vhttp", sels: map[string]bool{"ServeContent": true, "Server": true, "ErrServerClosed": true}},
+	{fromPath: "os/signal", toPath: envBase + "vsig", inCmd: true},
+	{fromPath: "os", toPath: envBase + "vsig", sels: map[string]bool{"Interrupt": true}, onlyFile: "cmd/olareg/serve.go"},
+	{fromPath: "context", toPath: envBase + "vctx", sels: map[string]bool{"WithCancel": true, "Background": true}, onlyFile: "cmd/olareg/serve.go"},
 	{fromPath: "github.com/olareg/olareg", toPath: envBase + "vhook", sels: map[string]bool{"New": true}, onlyFile: "cmd/olareg/serve.go"},
 }
 
@@ -66,7 +70,7 @@ func rewriteFile(path string) ([]byte, []string, error) {
 			if r.onlyFile != "" && !strings.HasSuffix(path, r.onlyFile) {
 				continue
 			}
-			if r.onlyFile == "" && strings.Contains(path, "/cmd/") {
+			if r.onlyFile == "" && !r.inCmd && strings.Contains(path, "/cmd/") {
 				continue // the command package keeps its real environment
 			}
 			name := filepath.Base(p)
